@@ -29,6 +29,20 @@ def run(ctx):
         paths = [pa for pa in _summ(f.node, max_paths=400)]
     except ValueError as e_:
         raise AnalysisError(f"draw_posterior_samples: {e_} (ANALYSIS-INCOMPLETE)")
+    def _feasible(pa):
+        # `X is None` where X is the result of a numpy call (never None), or the literal None tested against None
+        for t_, tr_ in pa.guards:
+            for e_, v_ in conjuncts(t_, tr_):
+                if isinstance(e_, ast.Compare) and len(e_.ops) == 1 and isinstance(e_.ops[0], (ast.Is, ast.IsNot)) and isinstance(e_.comparators[0], ast.Constant) and e_.comparators[0].value is None:
+                    is_none_ = v_ if isinstance(e_.ops[0], ast.Is) else (not v_)
+                    l_ = e_.left
+                    if isinstance(l_, ast.Constant) and l_.value is None and not is_none_:
+                        return False
+                    if isinstance(l_, ast.Call) and src(l_.func).split(".")[0] in ("np", "numpy") and is_none_:
+                        return False
+        return True
+
+    paths = [pa for pa in paths if _feasible(pa)]
     rpaths = [pa for pa in paths if pa.end == "return"]
     ctx.require(len(rpaths) >= 4, "draw_posterior_samples: fewer than four returning paths (two methods x return_indices)")
 
@@ -46,8 +60,45 @@ def run(ctx):
 
     N_OK = {f"{ns}.size", f"len({ns})", f"{ns}.shape[0]"}
 
-    def count_ok(e_):
-        return canon(e_) in N_OK
+    def count_ok(e_, mask_=None):
+        if canon(e_) in N_OK:
+            return True
+        if mask_ is None:
+            return False
+        m_ = canon(mask_)
+        # the number of samples kept by the mask
+        if canon(e_) in (f"sum({m_})", f"count_nonzero({m_})", f"{m_}.sum()", f"len(flatnonzero({m_}))", f"flatnonzero({m_}).size"):
+            return True
+        v_ = e_.value if isinstance(e_, ast.Attribute) and e_.attr == "size" else (e_.args[0] if isinstance(e_, ast.Call) and canon(e_.func) == "len" and len(e_.args) == 1 else (e_.value.value if isinstance(e_, ast.Subscript) and isinstance(e_.value, ast.Attribute) and e_.value.attr == "shape" and isinstance(e_.slice, ast.Constant) and e_.slice.value == 0 else None))
+        return isinstance(v_, ast.Subscript) and canon(v_.value) == ns and canon(v_.slice) == m_
+
+    def is_w_(e_):
+        while isinstance(e_, ast.Call) and src(e_.func).split(".")[-1] in ("asarray", "array", "asanyarray") and e_.args:
+            e_ = e_.args[0]
+        return is_w(e_)
+
+    def unmask(ie_):
+        """indices drawn among the samples kept by a mask M and mapped back, `flatnonzero(M)[sub]`: (sub, M).  M must keep
+        every sample of non-zero weight (isfinite(w), ~isneginf(w), w > -inf): the normalisers (max, logsumexp) of the
+        kept weights are then those of all weights."""
+        if isinstance(ie_, ast.Subscript):
+            b_ = ie_.value
+            m_ = None
+            if isinstance(b_, ast.Call) and src(b_.func).split(".")[-1] == "flatnonzero" and len(b_.args) == 1:
+                m_ = b_.args[0]
+            elif isinstance(b_, ast.Subscript) and isinstance(b_.slice, ast.Constant) and b_.slice.value == 0 and isinstance(b_.value, ast.Call) and src(b_.value.func).split(".")[-1] in ("where", "nonzero") and len(b_.value.args) == 1:
+                m_ = b_.value.args[0]
+            if m_ is not None:
+                ok_ = False
+                if isinstance(m_, ast.Call) and src(m_.func).split(".")[-1] == "isfinite" and len(m_.args) == 1 and is_w_(m_.args[0]):
+                    ok_ = True
+                elif isinstance(m_, ast.UnaryOp) and isinstance(m_.op, ast.Invert) and isinstance(m_.operand, ast.Call) and src(m_.operand.func).split(".")[-1] in ("isneginf", "isnan") and len(m_.operand.args) == 1 and is_w_(m_.operand.args[0]):
+                    ok_ = True
+                elif isinstance(m_, ast.Compare) and len(m_.ops) == 1 and isinstance(m_.ops[0], ast.Gt) and is_w_(m_.left) and canon(m_.comparators[0]) in ("-inf",):
+                    ok_ = True
+                if ok_:
+                    return ie_.slice, m_
+        return ie_, None
 
     def split_ret(pa):
         r_ = pa.ret
@@ -86,6 +137,9 @@ def run(ctx):
     seen_r = ""
     for pa in rej:
         ie = idx_exprs.get(id(pa))
+        mask_ = None
+        if ie is not None:
+            ie, mask_ = unmask(ie)
         cmp_ = None
         if ie is not None:
             c_ = ie
@@ -107,7 +161,7 @@ def run(ctx):
             u_ = small.args[0]
             nm_ = canon(u_.func)
             a_ = u_.args[0] if u_.args else next((k_.value for k_ in u_.keywords if k_.arg == "size"), None)
-            u_ok = nm_ in ("random.rand", "random.uniform", "random.random", "random.random_sample") and a_ is not None and count_ok(a_) and (nm_ != "random.uniform" or not u_.args)
+            u_ok = nm_ in ("random.rand", "random.uniform", "random.random", "random.random_sample") and a_ is not None and count_ok(a_, mask_) and (nm_ != "random.uniform" or not u_.args)
         ok_u = ok_u and u_ok
     ctx.ob("R-SIB", "C16.2", f, "rejection sampling keeps sample i iff its normalised log-weight exceeds log(U_i): indices = where(log_w > log_u)[0]", ok_cmp, f"`{seen_r}`")
     ctx.ob("R-SIB", "C16.2", f, "rejection branch normalises the log-weights by their maximum (max-weight sample always kept, -inf never)", ok_norm, f"`{seen_r}`")
@@ -117,6 +171,9 @@ def run(ctx):
     n_default = 0
     for pa in mul:
         ie = idx_exprs.get(id(pa))
+        mask_ = None
+        if ie is not None:
+            ie, mask_ = unmask(ie)
         seen_m = src(ie)[:140] if ie is not None else "None"
         if not (isinstance(ie, ast.Call) and canon(ie.func) == "random.choice"):
             ok_m = ok_p = ok_n = False
@@ -127,7 +184,7 @@ def run(ctx):
         size_ = pos[1] if len(pos) > 1 else kw.get("size")
         repl_ = pos[2] if len(pos) > 2 else kw.get("replace")
         p_ = pos[3] if len(pos) > 3 else kw.get("p")
-        ok_m = ok_m and a_ is not None and count_ok(a_) and (repl_ is None or (isinstance(repl_, ast.Constant) and repl_.value is True))
+        ok_m = ok_m and a_ is not None and count_ok(a_, mask_) and (repl_ is None or (isinstance(repl_, ast.Constant) and repl_.value is True))
         ev = lsa.Eval(set(), is_vector=is_w)
         vp = ev.ev(p_) if p_ is not None else ("opaque", "")
         ok_p = ok_p and vp[0] == "exp" and vp[1][0] == "vec" and vp[1][1] == 1 and vp[1][2] == {("L", Fraction(1)): Fraction(-1)}
